@@ -780,7 +780,7 @@ auto req_sketch<T, C, A>::const_iterator::operator++() -> const_iterator& {
 }
 
 template<typename T, typename C, typename A>
-auto req_sketch<T, C, A>::const_iterator::operator++(int) -> const_iterator& {
+auto req_sketch<T, C, A>::const_iterator::operator++(int) -> const_iterator {
   const_iterator tmp(*this);
   operator++();
   return tmp;
